@@ -603,6 +603,8 @@ def g_adj_dict(sg, rng, view, namer, cells=None):
             budget -= 1
         adj.append([k, vals])
     op = {"op": "adj_dict", "new": namer.new("u"), "adj": adj}
+    if rng.random() < sg.cfg.get("p_arg_kind", 0.35):
+        op["vals_as"] = rng.choice(["tuple", "iter", "gen"])
     if rng.random() < 0.75:
         op["cls"] = sg.edge_class(rng)
     else:
@@ -650,6 +652,8 @@ def g_adj_matrix(sg, rng, view, namer, cell_pool=("0", "0", "1"), p_bad_shape=0.
         else:
             matrix = matrix + [["1"] * n]
     op = {"op": "adj_matrix", "new": namer.new("u"), "matrix": matrix, "verts": verts}
+    if rng.random() < sg.cfg.get("p_arg_kind", 0.35) * 0.6:
+        op["rows_as"] = "tuple"
     if rng.random() < 0.75:
         op["cls"] = sg.edge_class(rng)
     else:
